@@ -287,6 +287,12 @@ def py_filter(rows: List[tuple], col: str, op: str, val) -> List[tuple]:
             continue
         if x is None or x == "NaN":
             continue
+        # comparison operators: the engine compares the stored value (a 32-bit float widened to double) with the
+        # filter value AS A DOUBLE - only the 'in' value set is cast to the column type
+        if op == ">" and x > val:
+            out.append(r)
+        elif op == "<" and x < val:
+            out.append(r)
         if op == "==" and x == val:
             out.append(r)
         elif op == ">=" and x >= val:
@@ -585,7 +591,7 @@ def execute(plan: dict, scratch: str, replay: Optional[dict] = None) -> dict:
                     return
             for col, op, val in (("v", ">=", 0), ("tag", "==", rows[0]["tag"] if st["kind"] == "records" and isinstance(rows[0].get("tag"), str) else "zz"),
                                  ("x", "is_not_null", True), ("i", ">=", -5), ("f", "is_not_null", True),
-                                 ("x", "!=", 1.5), ("f", "in", [0.1, 0.5])):
+                                 ("x", "!=", 1.5), ("f", "in", [0.1, 0.5]), ("f", ">", 0.1), ("f", "<", 0.5000001)):
                 flt = {col: val} if op == "==" else {col: (op, val)}
                 try:
                     got = sorted((ir.row_key(r) for r in t.scan(filter=flt)), key=repr)
